@@ -135,7 +135,7 @@ ADDED = {
     "C03": " Plus images of 260..4200 lines, four-image products opened through the cache they have just written, piecewise-constant per-line values, 1.1+1.5 twins of equal record length, and image files replaced in place (modification time kept or not) between two opens.",
     "C04": " 28 float / 15 integer text formats, free-text contents that look like dates / numbers / nan / None; 30 all-fields-at-once products; the leader replaced in place (equal size, modification time kept or not) between two opens.",
     "C05": " Facility records of every length up to 2600 (20000 thorough) and around every power of two up to 2^17, attitude records of every length up to 700 (3000). Facility records 2 and 5 beginning at 2^15..2^18 -14..+2.",
-    "C06": " Plus 100-, 1030- and 1100-line products (many line groups; more lines than the default request size). An 8300-line product at request sizes around and beyond 8192 lines.",
+    "C06": " Plus 100-, 1030- and 1100-line products (many line groups; more lines than the default request size). An 8300-line product at request sizes around and beyond 8192 lines. 1100x200 / 1030x60 products on the local filesystem (requests of 64 KiB and more).",
     "C07": " Plus per-line values that are identical / drift by one unit / are piecewise constant (what a size-optimised index would fold), and 16 configurations in an interpreter whose locale encoding is ASCII. The first pixel load of a fresh cached tree must read what an uncached tree's load reads; use_cache=True with create_cache=True must use a usable cache without touching the image.",
     "C08": " Plus pattern arrays (identical elements, zeros of mixed sign, adjacent representable values, all NaN/NaT) and long arrays (20..5000 elements, piecewise constant with change points 4/15/1000/1024/4096, full-range ramps, both byte orders), reader-produced 4200-line groups. Backend byte ranges straddling / touching offsets 2^31, 2^32 and 2^40 on every line; non-contiguous, transposed and strided input arrays.",
     "C09": " Plus an 18000-line image whose index exceeds 5 MiB, cut at every power of two 2^12..2^22 and every MiB multiple in both locations (block-wise copies and reads). Default opens of torn indexes while no file can grow beyond the prefix length (RLIMIT_FSIZE: the volume is still full). With a complete index in the other location the line records must not be re-read. Real crash points: a forked child running create_cache=True is killed by the kernel (RLIMIT_FSIZE + default SIGXFSZ) at byte k of the cache file it writes; the parent opens, repairs and re-opens what was left.",
@@ -146,7 +146,7 @@ ADDED = {
     "C14": " 14 corruption kinds (4 with non-ASCII letters / underscore / quote); typed values incl. leap second, leap day, number spellings and every table code. Scene-id dates with every two-digit year and every day around the turn of seven years.",
     "C15": " The near-miss alphabet contains the line feed, non-ASCII digits and letters, lower case and control characters.",
     "C16": " Plus creation times around daylight-saving switch-overs under four local time zones, text that looks like a date-time, and the volume directory replaced in place between two opens.",
-    "C17": " Plus 16 times of day at every order of magnitude of the ms/us counters, decimal seconds up to 86399.9999996, blank-padded date texts, four daylight-saving time zones and images of up to 2049 lines. Plus millisecond stamps ahead of the microsecond counter.",
+    "C17": " Plus 16 times of day at every order of magnitude of the ms/us counters, decimal seconds up to 86399.9999996, blank-padded date texts, four daylight-saving time zones and images of up to 2049 lines. Plus millisecond stamps ahead of the microsecond counter. 130 attitude points with distinct milliseconds on nine days of the year, exact to the nanosecond.",
     "C18": " Plus 19..72 MB images cut at record boundaries, inside prefixes / pixel data and at powers of two, and every file cut in place after an intact open in the same process (modification time kept or not). Plus images whose record length is 720 / 360 / 240 bytes cut around every record boundary; the narrow seam counts 'open returned, load raises' as a violation. The second image of a product cut as well (geometry and file descriptor equal to / different from the first image's); waits requested through time.sleep before a missing-file error are recorded, more than 5 s is not prompt.",
     "C19": " Plus six scenarios on a filesystem whose open() hands out one shared, rewound file object (like memory://) and 132 two-thread scenarios on a 12-image product after every image was read once; the library's process-level state is restored before every execution. Plus eight scenarios on the local filesystem (fsspec LocalFileSystem with traced, schedulable reads). The scheduler also controls Event / Condition / concurrent.futures.Future waits and locks held by module-level library objects.",
     "C20": " Plus a second baseline in which all numeric fields of a record hold the same value, the map-projection record under every designator, and the image descriptor under -F<n> / -B<n> file names.",
